@@ -88,7 +88,9 @@ def digitsN (n : Nat) (s : Str) : Option (Nat × Str) :=
   if s.length < n then none else ((s.take n).foldlM (fun a c => (digitOf c).map (a * 10 + ·)) 0).map fun v => (v, s.drop n)
 def lit (c : Nat) (s : Str) : Option Str := match s with | x :: r => if x == c then some r else none | [] => none
 
-def pad (w n : Nat) : Str := let d := (toString n).toList.map (·.toNat); List.replicate (w - d.length) 48 ++ d
+def pad2 (n : Nat) : Str := [n / 10 % 10 + 48, n % 10 + 48]
+def pad4 (n : Nat) : Str := [n / 1000 % 10 + 48, n / 100 % 10 + 48, n / 10 % 10 + 48, n % 10 + 48]
+def decimal (n : Nat) : Str := (toString n).toList.map (·.toNat)
 
 /-- `FullDate::from_str` (time's `[year]-[month]-[day]`, 4-digit year; a leading sign is refused
 since the C19 `fix:` commit) and its text form `YYYY-MM-DD` -/
@@ -103,13 +105,13 @@ def parseFullDate (s : Str) : Option (Nat × Nat × Nat) := do
   else if d < 1 || d > daysInMonth y m then none
   else some (y, m, d)
 
-def showFullDate (y m d : Nat) : Str := pad 4 y ++ [45] ++ pad 2 m ++ [45] ++ pad 2 d
+def showFullDate (y m d : Nat) : Str := pad4 y ++ [45] ++ pad2 m ++ [45] ++ pad2 d
 
 /-- pinned commit: optional sign accepted, year printed without padding (`{}-{:0>2}-{:0>2}`) -/
 def fullDatePinned (s : Str) : Option Str :=
   let (neg, body) := match s with | 45 :: r => (true, r) | 43 :: r => (false, r) | _ => (false, s)
   match parseFullDate body with
-  | some (y, m, d) => some ((if neg && y != 0 then [45] else []) ++ (toString y).toList.map (·.toNat) ++ [45] ++ pad 2 m ++ [45] ++ pad 2 d)
+  | some (y, m, d) => some ((if neg && y != 0 then [45] else []) ++ decimal y ++ [45] ++ pad2 m ++ [45] ++ pad2 d)
   | none => none
 
 structure DT where
@@ -130,11 +132,19 @@ def nextDay (y m d : Nat) : Option (Nat × Nat × Nat) :=
   else if m < 12 then some (y, m + 1, 1)
   else if y ≥ 9999 then none else some (y + 1, 1, 1)
 
-/-- `TDate::from_json`: RFC 3339 as the `time` crate parses it (any single byte as date/time
-separator, `Z`/`z` or ±hh:mm with hh ≤ 23 and mm ≤ 59, any number of fraction digits, a leap second
-only where it can occur), converted to UTC, sub-second part dropped; a result outside years
-0000..9999 is refused (since the C19 `fix:` commit; it panicked before). -/
-def parseTDate (s : Str) : Option DT := do
+structure Rfc3339 where
+  y : Nat
+  mo : Nat
+  d : Nat
+  h : Nat
+  mi : Nat
+  sec : Nat          -- 0..60
+  offMin : Int       -- minutes east of UTC
+  deriving DecidableEq, Repr
+
+/-- RFC 3339 as the `time` crate parses it: 4-digit year, any single byte as date/time separator,
+any number (≥ 1) of fraction digits, `Z`/`z` or ±hh:mm with hh ≤ 23 and mm ≤ 59; field ranges -/
+def parseRfc3339 (s : Str) : Option Rfc3339 := do
   let (y, r) ← digitsN 4 s
   let r ← lit 45 r
   let (mo, r) ← digitsN 2 r
@@ -167,39 +177,40 @@ def parseTDate (s : Str) : Option DT := do
   else if mo < 1 || mo > 12 then none
   else if d < 1 || d > daysInMonth y mo then none
   else if h > 23 || mi > 59 || sec > 60 then none
-  else
-    let leap := sec == 60
-    let sec' := if leap then 59 else sec
-    let local_ : Int := ((h * 3600 + mi * 60 + sec' : Nat) : Int) - offMin * 60
-    let (date, secs) ←
-      if local_ < 0 then (prevDay y mo d).map fun dd => (dd, (local_ + 86400).toNat)
-      else if local_ ≥ 86400 then (nextDay y mo d).map fun dd => (dd, (local_ - 86400).toNat)
-      else some ((y, mo, d), local_.toNat)
-    let (y', mo', d') := date
+  else some ⟨y, mo, d, h, mi, sec, offMin⟩
+
+/-- `TDate::from_json`: parse, convert to UTC (an offset moves the date by at most one day), drop
+the sub-second part; a leap second only where it can occur (last second of a month, UTC) and then
+as the preceding second; a result outside years 0000..9999 is refused (since the C19 `fix:`
+commit; it panicked before). -/
+def toUtc (p : Rfc3339) : Option DT :=
+  let leap := p.sec == 60
+  let sec' := if leap then 59 else p.sec
+  let local_ : Int := ((p.h * 3600 + p.mi * 60 + sec' : Nat) : Int) - p.offMin * 60
+  let shifted : Option ((Nat × Nat × Nat) × Nat) :=
+    if local_ < 0 then (prevDay p.y p.mo p.d).map fun dd => (dd, (local_ + 86400).toNat)
+    else if local_ ≥ 86400 then (nextDay p.y p.mo p.d).map fun dd => (dd, (local_ - 86400).toNat)
+    else some ((p.y, p.mo, p.d), local_.toNat)
+  match shifted with
+  | none => none
+  | some ((y', mo', d'), secs) =>
     let r : DT := ⟨y', mo', d', secs / 3600, secs / 60 % 60, secs % 60⟩
     if leap && !(r.h == 23 && r.mi == 59 && r.s == 59 && r.d == daysInMonth r.y r.mo) then none
     else some r
 
+def parseTDate (s : Str) : Option DT := (parseRfc3339 s).bind toUtc
+
 def showTDate (t : DT) : Str :=
-  pad 4 t.y ++ [45] ++ pad 2 t.mo ++ [45] ++ pad 2 t.d ++ [84] ++ pad 2 t.h ++ [58] ++ pad 2 t.mi ++ [58] ++ pad 2 t.s ++ [90]
+  pad4 t.y ++ [45] ++ pad2 t.mo ++ [45] ++ pad2 t.d ++ [84] ++ pad2 t.h ++ [58] ++ pad2 t.mi ++ [58] ++ pad2 t.s ++ [90]
 
 /-! ### base64 (`base64::decode`, STANDARD alphabet, padding optional but canonical) -/
 def b64val (c : Nat) : Option Nat :=
   if 65 ≤ c ∧ c ≤ 90 then some (c - 65) else if 97 ≤ c ∧ c ≤ 122 then some (c - 71)
   else if 48 ≤ c ∧ c ≤ 57 then some (c + 4) else if c = 43 then some 62 else if c = 47 then some 63 else none
 
-def b64Groups : Nat → List Nat → Option Bytes
-  | 0, _ => none
-  | _, [] => some []
-  | fuel+1, a :: b :: c :: d :: rest =>
-    if rest.isEmpty then none   -- handled by the caller (last group)
-    else (b64Groups fuel rest).map fun t =>
-      let n := a * 262144 + b * 4096 + c * 64 + d
-      UInt8.ofNat (n / 65536) :: UInt8.ofNat (n / 256 % 256) :: UInt8.ofNat (n % 256) :: t
-  | _, _ => none
-
 /-- decode: strip at most two trailing `=` (only allowed where they complete a quantum), map the
-symbols, whole groups of four, then a final group of 2, 3 or 4 symbols whose unused bits are zero -/
+symbols, whole groups of four, then a final group of 2 or 3 symbols whose unused bits are zero;
+`=` may only fill (part of) that last group: "AA", "AA=", "AA==" all decode, "AAAA=" does not -/
 def base64Decode (s : Str) : Option Bytes :=
   let nPad := ((s.reverse.takeWhile (· == 61)).length)
   let body := s.take (s.length - nPad)
@@ -209,8 +220,8 @@ def base64Decode (s : Str) : Option Bytes :=
     | none => none
     | some vs =>
       let rem := vs.length % 4
-      if nPad > 0 && (rem + nPad) % 4 != 0 then none
-      else if rem == 1 then none
+      if rem == 1 then none
+      else if nPad > 0 && (rem < 2 || rem + nPad > 4) then none
       else
         let full := vs.take (vs.length - rem)
         let last := vs.drop (vs.length - rem)
@@ -284,17 +295,19 @@ def strumEnum (module ty : String) (s : Str) : Option Str := do
 
 def text (s : Str) : Cbor := .text (utf8Enc s)
 
-def insertSorted (k : Bytes) (v : Cbor) : List (Bytes × Cbor) → List (Bytes × Cbor)
-  | [] => [(k, v)]
-  | (k', v') :: rest =>
-    if k == k' then (k, v) :: rest
-    else if bytesLt k k' then (k, v) :: (k', v') :: rest
-    else (k', v') :: insertSorted k v rest
-where bytesLt : Bytes → Bytes → Bool
+def bytesLt : Bytes → Bytes → Bool
   | [], [] => false
   | [], _ :: _ => true
   | _ :: _, [] => false
   | a :: as, b :: bs => if a < b then true else if b < a then false else bytesLt as bs
+
+def sortedInsert (k : Bytes) (v : Cbor) : List (Bytes × Cbor) → List (Bytes × Cbor)
+  | [] => [(k, v)]
+  | (k', v') :: rest => if bytesLt k k' then (k, v) :: (k', v') :: rest else (k', v') :: sortedInsert k v rest
+
+/-- `BTreeMap::insert`: an existing entry with the key is replaced; entries stay in key order -/
+def insertSorted (k : Bytes) (v : Cbor) (l : List (Bytes × Cbor)) : List (Bytes × Cbor) :=
+  sortedInsert k v (l.filter fun e => e.1 != k)
 
 def mapOf (kvs : List (Bytes × Cbor)) : Cbor := .map (kvs.map fun (k, v) => (.text k, v))
 
@@ -316,6 +329,23 @@ def stripGeneric (outer ty : String) : Option String :=
   let p := (outer ++ "<").toList
   let t := ty.toList
   if t.take p.length == p && t.getLast? == some '>' then some (String.ofList ((t.drop p.length).dropLast)) else none
+
+/-- `AgeOver::from_map`: every JSON key `age_over_DD` (two ASCII digits) with a boolean value; a
+non-boolean value under such a key rejects the record; other keys are not looked at -/
+def ageOverEntries (kvs : List (Str × Json)) : Option (List (Bytes × Cbor)) :=
+  (kvs.filterMap fun kv => ((stripPrefixS ageOverPrefix kv.1).bind toAge).map fun a => (a, kv.2)).mapM
+    fun av => match av.2 with | .bool b => some (utf8Enc (ageOverPrefix ++ av.1), ofBool b) | _ => none
+
+/-- `BiometricTemplate::from_map`: every JSON key with the prefix, base64 value -/
+def biometricEntries (kvs : List (Str × Json)) : Option (List (Bytes × Cbor)) :=
+  (kvs.filterMap fun kv => (stripPrefixS bioPrefix kv.1).map fun sfx => (sfx, kv.2)).mapM
+    fun sv => match sv.2 with
+      | .str s => (base64Decode s).map fun b => (utf8Enc (bioPrefix ++ sv.1), Cbor.bytes b)
+      | _ => none
+
+def isPrimitive (ty : String) : Bool :=
+  ty == "Latin1" || ty == "String" || ty == "bool" || ty == "u32" || ty == "FullDate" || ty == "TDate" ||
+  ty == "TDateOrFullDate" || ty == "ByteStr" || ty == "UNDistinguishingSign" || ty == "Present" || ty == "CountyCode"
 
 mutual
 /-- `<T as FromJson>::from_json` followed by `ToCbor::to_cbor`, by type name -/
@@ -341,6 +371,7 @@ def leaf (module : String) (fuel : Nat) (ty : String) (j : Json) : Option Cbor :
     | [a, b, c] => if (digitOf a).isSome && (digitOf b).isSome && (digitOf c).isSome then some (text s) else none
     | _ => none
   | _, _ =>
+    if isPrimitive ty then none else    -- a primitive type given a JSON value of another type
     -- generated tables / enums / newtypes / nested structs
     match newtypeOf module ty with
     | some inner =>
@@ -369,6 +400,37 @@ def leafList (module : String) (fuel : Nat) (ty : String) : List Json → Option
       | some c, some cs => some (c :: cs)
       | _, _ => none
 
+/-- one field of the derived `from_json` + `to_ns_map`: the namespace map after this field -/
+def stepField (module : String) (fuel : Nat) (f : Field) (kvs : List (Str × Json)) (acc : List (Bytes × Cbor)) : Option (List (Bytes × Cbor)) :=
+  match f.mode with
+  | .plain =>
+    match jget kvs (ofAscii f.name) with
+    | none => if f.optional then some acc else none
+    | some .null => if f.optional then some acc else none
+    | some v => match leaf module fuel f.ty v with
+      | some c => some (insertSorted f.name c acc)
+      | none => none
+  | .many =>
+    if f.ty == "AgeOver" then
+      (ageOverEntries kvs).map fun es => es.foldl (fun m kc => insertSorted kc.1 kc.2 m) acc
+    else if f.ty == "BiometricTemplate" then
+      (biometricEntries kvs).map fun es => es.foldl (fun m kc => insertSorted kc.1 kc.2 m) acc
+    else none
+  | .dynamic =>
+    if f.ty == "IssuingJurisdiction" then
+      match jget kvs (strOfLit "issuing_jurisdiction") with
+      | none => some acc
+      | some (.str js) =>
+        match jget kvs (strOfLit "issuing_country") with
+        | none => some acc      -- `Missing` from the inner lookup is read as "field absent"
+        | some (.str cs) =>
+          match strEnum "org_iso_18013_5_1" "Alpha2" cs with
+          | some c => if js.take c.length == c then some (insertSorted f.name (text js) acc) else none
+          | none => none
+        | some _ => none
+      | some _ => none
+    else none
+
 /-- the derived `from_json` + `to_ns_map` over the fields, in declaration order (every field is
 evaluated; any error rejects the record) -/
 def structFields (module : String) (fuel : Nat) : List Field → List (Str × Json) → List (Bytes × Cbor) → Option (List (Bytes × Cbor))
@@ -377,43 +439,9 @@ def structFields (module : String) (fuel : Nat) : List Field → List (Str × Js
     match fuel with
     | 0 => none
     | fuel'+1 =>
-    let rest := fun acc' => structFields module fuel' fs kvs acc'
-    match f.mode with
-    | .plain =>
-      match jget kvs (ofAscii f.name) with
-      | none => if f.optional then rest acc else none
-      | some .null => if f.optional then rest acc else none
-      | some v => match leaf module fuel' f.ty v with
-        | some c => rest (insertSorted f.name c acc)
-        | none => none
-    | .many =>
-      if f.ty == "AgeOver" then
-        let hits := kvs.filterMap fun (k, v) => ((stripPrefixS ageOverPrefix k).bind toAge).map fun a => (a, v)
-        match hits.mapM fun (a, v) => match v with | .bool b => some (utf8Enc (ageOverPrefix ++ a), ofBool b) | _ => none with
-        | some es => rest (es.foldl (fun m (k, c) => insertSorted k c m) acc)
-        | none => none
-      else if f.ty == "BiometricTemplate" then
-        let hits := kvs.filterMap fun (k, v) => (stripPrefixS bioPrefix k).map fun sfx => (sfx, v)
-        match hits.mapM fun (sfx, v) => match v with
-            | .str s => (base64Decode s).map fun b => (utf8Enc (bioPrefix ++ sfx), Cbor.bytes b)
-            | _ => none with
-        | some es => rest (es.foldl (fun m (k, c) => insertSorted k c m) acc)
-        | none => none
-      else none
-    | .dynamic =>
-      if f.ty == "IssuingJurisdiction" then
-        match jget kvs (strOfLit "issuing_jurisdiction") with
-        | none => rest acc
-        | some (.str js) =>
-          match jget kvs (strOfLit "issuing_country") with
-          | none => rest acc      -- `Missing` from the inner lookup is read as "field absent"
-          | some (.str cs) =>
-            match strEnum "org_iso_18013_5_1" "Alpha2" cs with
-            | some c => if js.take c.length == c then rest (insertSorted f.name (text js) acc) else none
-            | none => none
-          | some _ => none
-        | some _ => none
-      else none
+      match stepField module fuel' f kvs acc with
+      | none => none
+      | some acc' => structFields module fuel' fs kvs acc'
 end
 
 /-- the whole conversion for a namespace struct -/
